@@ -437,6 +437,30 @@ def multi_cases():
         for port_on, ok in (("newer", True), ("older", False), ("both", True), ("none", True)):
             files = {"vnd/%sStatus.1.%d.dsdl" % ("6200." if port_on in ("older", "both") else "", lo): "uint8 a\n@sealed\n", "vnd/%sStatus.1.%d.dsdl" % ("6200." if port_on in ("newer", "both") else "", hi): "uint8 a\n@sealed\n"}
             yield {"kind": "multi", "family": "minor-version-port", "files": files, "root": "vnd", "valid": ok, "allow": False, "label": [lo, hi, port_on]}
+    # (f) valid names that BEGIN with a type keyword or reserved word, as root namespace, nested namespace and short type name, referred
+    #     to by full and by relative name in every position where a type can be written
+    kw_names = ["bytestream", "boolean", "utf8text", "uint8ext", "int8x", "float32s", "voidance", "void1x", "saturatedx", "truncated_", "byte_count", "bytes", "Uint8s", "u", "in", "truex"]
+    kw_names = [n for n in kw_names if n not in RESERVED]
+    for n in kw_names:
+        if n in ("uint", "float"):
+            continue  # reserved words themselves (listed in RESERVED under other spellings) are not names
+        positions = {"field": "%s a", "farr": "%s[2] a", "varr": "%s[<=2] a", "varr-lt": "%s[<3] a"}
+        for pname, pos in positions.items():
+            for layout in ("struct", "union", "service-response"):
+                refs = {"root": "%s.Chunk.1.0" % n, "nested": "vnd.%s.Inner.1.0" % n, "short-full": "vnd.%s.1.0" % n, "short-relative": "%s.1.0" % n}
+                for rname, ref in refs.items():
+                    files = {"%s/Chunk.1.0.dsdl" % n: "uint8 v\n@sealed\n", "vnd/%s/Inner.1.0.dsdl" % n: "uint8 v\n@sealed\n", "vnd/%s.1.0.dsdl" % n: "uint8 v\n@sealed\n"}
+                    line = pos % ref
+                    if layout == "struct":
+                        text = line + "\n@sealed\n"
+                    elif layout == "union":
+                        text = "@union\nuint8 other\n" + line + "\n@sealed\n"
+                    else:
+                        text = "@sealed\n---\n" + line + "\n@sealed\n"
+                    files["vnd/User.1.0.dsdl"] = text
+                    if pname != "field" and layout != "struct" and rname != "root":
+                        continue  # full product along the struct / field axes
+                    yield {"kind": "multi", "family": "keyword-prefixed-names", "files": files, "root": "vnd", "lookups": [n], "valid": True, "allow": False, "label": [n, pname, layout, rname]}
     # (c) a broken dependency reached through several users / through a chain: every static rule applies to what is read, wherever it is read from
     for bad, ok in (("uint65 a\n@sealed\n", False), ("uint8 a\n", False), ("@union\nuint8 a\n@sealed\n", False), ("uint8 a\n@extent 4\n", False), ("uint8 a\n@sealed\n", True)):
         for chain in (1, 2, 3):
